@@ -2,7 +2,7 @@
 """Confirms every seeded change under <src root> (tests still green, demo passes clean / fails patched) on a scratch copy, runs the
 property's quick check against it and archives it as /verif/seeded/<id>/ {patch.diff, demo.py, notes.md, meta.json}."""
 import sys, os, subprocess, json, shutil, tempfile, re
-ROOT = '/verif'; SRC = sys.argv[1]
+ROOT = os.environ.get('VERIF_ROOT', '/verif'); SRC = sys.argv[1]
 only = set(sys.argv[2:])
 for name in sorted(os.listdir(SRC)):
     d = os.path.join(SRC, name)
